@@ -1,4 +1,5 @@
 import Mkdb.Proofs.NoPanicExec
+import Mkdb.Proofs.SpecRefineB
 /-!
 # C18 — no statement can crash the engine (SELECT evaluation)
 
@@ -35,3 +36,30 @@ theorem C18_star_aggregate_counterexample :
   star_aggregate_panics
 
 end Mkdb.Exec
+
+namespace Mkdb.Store
+open Mkdb.Tree Mkdb.Page Mkdb.Tuple Mkdb.Generated
+
+/-- **C18.dml_ddl_never_crash**: for every database state related to a plain database (`Rel`: the
+catalog invariant, any number of tables of any size and depth), every CREATE TABLE / INSERT / UPDATE /
+DELETE the parser can produce - unknown tables and columns, wrong types, NULLs, out-of-range integers,
+oversized rows, WHERE clauses that cannot be evaluated, duplicate tables - the engine model returns
+`.ok` or `.err`: never a panic, never an unmodelled path, never out of fuel (fuel exhaustion is how the
+model would show a hang).  Side conditions: `StmtNames` - the statement does not address the two
+catalog tables by name; `StmtRoomT` - literals that fit their Go types and the size room (64-level
+fuel, offsets below 2^63) for INSERT and CREATE TABLE only. -/
+theorem C18_dml_ddl_never_crash (db : Engine.DB) (order : List Nat) (pt sch : Levels)
+    (tbls : List (Bytes × Levels)) (sdb : Spec.SDB) (h : Rel db pt sch tbls sdb) (st : Sql.Stmt)
+    (hnames : StmtNames pt tbls st) (hroom : StmtRoomT db pt sch tbls st) :
+    (∀ p, evalStmt db order st ≠ .panic p) ∧ (∀ w, evalStmt db order st ≠ .unmodelled w) ∧
+      evalStmt db order st ≠ .fuel :=
+  (evalStmt_total db order pt sch tbls sdb h st hnames hroom).not_crash
+
+/-- and a refused statement leaves the log alone (`Total`) -/
+theorem C18_dml_ddl_total (db : Engine.DB) (order : List Nat) (pt sch : Levels)
+    (tbls : List (Bytes × Levels)) (sdb : Spec.SDB) (h : Rel db pt sch tbls sdb) (st : Sql.Stmt)
+    (hnames : StmtNames pt tbls st) (hroom : StmtRoomT db pt sch tbls st) :
+    Total db (evalStmt db order st) :=
+  evalStmt_total db order pt sch tbls sdb h st hnames hroom
+
+end Mkdb.Store
